@@ -28,4 +28,9 @@ def run(chk):
     batcher.channel_impls(chk, P, "C09")
     batcher.nothing_under_lock(chk, P, "C09")
     batcher.metrics_accounting(chk, P, "C09", ("emit_batcher", "emit_file", "emit_otlp"))
+    if not getattr(chk, "_overlay", None):
+        common.linear_types_rule(chk, P, "C09.R4:halves-are-linear", "the channel halves cannot be copied (dropping one copy would close the channel under the other)",
+                                 {"emit_batcher::Sender": "Drop for Sender closes the channel: the first copy dropped stops the receiver while the others still send, "
+                                                          "their items are discarded and a flush reports success at once",
+                                  "emit_batcher::Receiver": "two receivers would take batches concurrently and both clear is_in_batch"})
     return chk
